@@ -480,39 +480,63 @@ def toggler_loop_discipline(prog, rep, R, b):
         ok = len(exits) == 1 and exits[0][0] == sw and none_tgt and exits[0][1] == none_tgt[0]
     rep.check(ok, R, "toggle:scan-ends-only-when-tokens-exhausted", "the toggle scan can stop before the last token (break / return inside the loop): tokens after that point — e.g. the end-of-file token of an "
               "unterminated `pasfmt off` region — would not be kept verbatim", where="%s:%d" % (b.file, b.line), instance={"loop_exits": len(exits), "exit": "iterator exhausted"})
-    # every iteration reaches the `ignored | on_toggle_comment` decision
-    dec = None
-    for x in sorted(L):
-        t = b.blocks[x]["term"]
-        if t["k"] == "switch" and t["discr"]["k"] in ("copy", "move"):
-            d = t["discr"]["place"]["l"]
-            for df in b.defs.get(d, []):
-                if df[0] == "assign" and df[3]["rv"]["k"] == "binop" and df[3]["rv"]["op"] == "BitOr":
-                    names = sorted(canon(b, df[3]["rv"][k]) for k in ("a", "b"))
-                    if names == ["var:ignored", "var:on_toggle_comment"]:
-                        dec = x
-    ok = dec is not None and bfs_cycle(b, h, L, {dec}) is None
-    marks = [c for c in b.calls() if c.callee == FMT + "TokenMarker::mark"]
-    if ok and marks:
-        t = b.blocks[dec]["term"]
-        ok = t["otherwise"] == marks[0].bb or marks[0].bb in b.reach_from(t["otherwise"], avoid={h}, include_start=True)
-        ok &= canon(b, marks[0].args[1]).endswith("@Some.0.0")
-    rep.check(ok, R, "toggle:every-token-decided-by-ignored|on_toggle", "not every token of the scan reaches the `ignored | on_toggle_comment => mark(i)` decision", instance={"decision": "ignored | on_toggle_comment"})
-    # stores to `ignored`
-    ign = None
+    # transition table of one iteration: (token kind, parse_toggle result, flag before) -> (flag after, marked?)
+    from table import Table, TooComplex, render
+    sw = nxt[0].t["target"] if nxt else None
+    some = None
+    if sw is not None and b.blocks[sw]["term"]["k"] == "switch":
+        tt = b.blocks[sw]["term"]
+        some = ([tb for v, tb in tt["targets"] if v == 1] or [tt["otherwise"]])[0]
+    # the loop-carried flag: the bool local written both outside the loop (initial value) and inside it
+    flags = []
     for i, lc in enumerate(b.locals):
-        if lc.get("name") == "ignored":
-            ign = i
-    stores = [(bb, s) for bb, i2, s in b.stmts() if s["k"] == "assign" and s["dst"]["l"] == ign and not s["dst"]["p"]] if ign is not None else []
-    good = len(stores) == 3
-    for bb, s in stores:
-        v = s["rv"]["op"].get("bool") if s["rv"]["k"] == "use" and s["rv"]["op"]["k"] == "const" else None
-        if bb not in L:
-            good &= v is False
+        if lc.get("ty") != "bool":
             continue
-        facts = [f[2][0] for f in dominating_variant_facts(prog, b, bb) if f[1] == "is" and "parse_toggle(" in f[0]]
-        good &= (v is True and facts[-1:] == ["Off"]) or (v is False and facts[-1:] == ["On"])
-    rep.check(good, R, "toggle:ignored-flips-only-on-Off/On", "the region flag is set by something other than `Some(Off) => true`, `Some(On) => false` (initially false)", instance={"stores": len(stores)})
+        defs = [d for d in b.defs.get(i, []) if d[0] == "assign"]
+        if any(d[1] in L for d in defs) and any(d[1] not in L for d in defs):
+            flags.append(i)
+    if not rep.check(some is not None and len(flags) == 1, R, "toggle:anchor-loop-state", "the scan's loop-carried region flag could not be identified (candidates: %d)" % len(flags)):
+        return
+    ign = flags[0]
+    init = [d for d in b.defs.get(ign, []) if d[0] == "assign" and d[1] not in L]
+    init_false = len(init) == 1 and init[0][3]["rv"]["k"] == "use" and init[0][3]["rv"]["op"].get("bool") is False
+    try:
+        tb = Table(prog, b, start=some, stop={h}, state=[ign], inline=1)
+    except TooComplex as e:
+        rep.fail(R, "toggle:transition-table", "one iteration of the toggle scan is not a loop-free classifier: %s" % e)
+        return
+    flagname = "var:" + (b.locals[ign].get("name") or "tmp")
+    bad = []
+    seen = set()
+    for (cons, res), calls in zip(tb.rows, tb.calls):
+        tog = [c[2] for c in cons if c[0] == "is" and c[1].endswith("@Some.0") and c[2] in ("On", "Off")]
+        tog = tog[0] if tog else None
+        before = [c[2] for c in cons if c[0] == "cond" and c[1] == flagname]
+        before = None if not before else (before[0] != 0)
+        if res.kind != "agg" or res.a[0] != "state":
+            # the iteration leaves the function (return inside the loop): reported by the exit rule above
+            bad.append({"toggle": None, "flag_before": None, "flag_after": "returns from inside the scan", "marked": False})
+            continue
+        out = res.a[2][0]
+        after = out.a if out.kind == "const" else ("same" if out.kind == "place" and out.a == flagname else "?")
+        marked = any(n.endswith("TokenMarker::mark") for n, _ in calls)
+        comment = any(c[0] == "is" and c[2] == "Comment" for c in cons)
+        # parse_toggle is applied to this token's own content (with inlining the content accessor shows up as a call on the element)
+        parsed = any(n.endswith("parse_toggle") for n, a in calls) and any(n.endswith("get_content") and a and a[0].endswith("@Some.0.1") for n, a in calls)
+        seen.add((tog, before))
+        if tog == "Off":
+            ok1 = after is True and marked and comment and parsed
+        elif tog == "On":
+            ok1 = after is False and marked and comment and parsed
+        else:
+            ok1 = after == "same" and before is not None and marked == before
+        if not ok1:
+            bad.append({"toggle": tog, "flag_before": before, "flag_after": str(after), "marked": marked})
+    rep.check(init_false and not bad and {("Off", None), ("On", None)} <= {(a2, None) for a2, _ in seen} and len(tb.rows) >= 4, R, "toggle:transition-table",
+              "one step of the toggle scan is not: Off comment -> region on, marked; On comment -> region off, marked; anything else -> region unchanged, marked iff inside the region (flag initially off); deviating paths: %s" % bad[:3],
+              where="%s:%d" % (b.file, b.line), instance={"paths": len(tb.rows), "initially_off": init_false, "deviating": bad[:3]})
+    marks = [c for c in b.calls() if c.callee == FMT + "TokenMarker::mark"]
+    rep.check(len(marks) >= 1 and all(canon(b, m.args[1]).endswith("@Some.0.0") for m in marks), R, "toggle:marks-this-token", "mark() is not called with the index of the token at hand", instance={"mark_calls": len(marks)})
 
 
 def check_c01d(prog, rep):
